@@ -60,12 +60,27 @@ def eq_queries(tier):
     o = spell.Opts(full_strings=False)
     for _tag, q in c13.constructs():
         out.append(("c13", spell.text(q, o)))
-    for parts in c11.queries("quick")[: 8 + 128 + (0 if tier == "quick" else 2048)]:
+    qs11 = c11.queries("quick")
+    for parts in qs11[: 8 + 128]:
         out.append(("c11", c11.text_of(parts)))
+    # two-operator compound queries (every 5th in quick, all in thorough): late binding needs >= 2 intersections
+    for parts in qs11[8 + 128: 8 + 128 + 2048][:: (5 if tier == "quick" else 1)]:
+        out.append(("c11", c11.text_of(parts)))
+    # member names that need escaping in normalized paths, under every selector kind
+    from ..gen import matchspace
+    for nm in NASTY_NAMES:
+        for q in matchspace.name_queries(nm):
+            out.append(("c03:" + nm, spell.text(q)))
     return out
 
 
+NASTY_NAMES = ["'", "\\", '"', "\n", "~", "/", "é", "𝄞", "a b", "", "it's", "a\\'b", "\t\u0001"]
+
+
 def eq_docs(family):
+    if family.startswith("c03:"):
+        from ..gen import matchspace
+        return matchspace.name_docs(family[4:])
     if family == "c01":
         return c01.docs_A("quick")[::3] + c01.EXTRA_DOCS + c01.SEP_DOCS
     if family == "c02":
@@ -190,7 +205,7 @@ def _eq(family, text, acc, record=True, only_doc=None):
             if record:
                 acc.case("EQ", (text, di, form), outcome=ref if ref[0] != "ok" else tuple(x[0] for x in ref[1]),
                          nontrivial=ref[0] == "ok" and bool(ref[1]), trans=3)
-                acc.count("EQ.%s.%s" % (family, form))
+                acc.count("EQ.%s.%s" % (family.split(":")[0], form))
                 if ref[0] == "error":
                     acc.count("EQ.sync-error")
                 if acc.evals % 3000 == 1:
@@ -273,7 +288,7 @@ def _show2(x):
     return [x[0], repr(x[1])[:200]]
 
 
-REQUIRE = {"EQ.c01.plain": 100, "EQ.c01.proxy": 100, "EQ.c02.proxy": 100, "EQ.c13.proxy": 100, "EQ.c11.proxy": 100,
+REQUIRE = {"EQ.c01.plain": 100, "EQ.c01.proxy": 100, "EQ.c02.proxy": 100, "EQ.c13.proxy": 100, "EQ.c11.proxy": 100, "EQ.c03.proxy": 100,
            "SCH.schedules": 50, "SCH.preemptions=1": 20}
 
 
